@@ -8,7 +8,7 @@ use crate::readers::{model_for, open, Front, ReaderSys, FRONTS};
 use serde_json::{json, Value};
 use std::io::Cursor;
 
-pub const RULE: &str = "for every file of the seek corpus (channels × depth × seek-table shape × declared/unknown length; 16-sample frames + short final frame; plus grammar-built variable-blocksize streams with frames of 16/24/16/40/5 samples; position-identifying PCM; a subset again embedded behind 7 foreign bytes with the source positioned at the stream's start) and each seekable reader front-end, breadth-first exploration of ALL histories over the op alphabet {read(n), fill_buf, fill+consume(k), seek(Start/Current/End or sample)} to a fixpoint with exact-state de-duplication (key = source position, current sample, decoded frame, buffered remainder, consumed count, reference cursor); every transition is checked against a cursor over the reference PCM; distinct outcomes = (front, op kind, label)";
+pub const RULE: &str = "for every file of the seek corpus (channels × depth × seek-table shape × declared/unknown length; 16-sample frames + short final frame; plus grammar-built variable-blocksize streams with frames of 16/24/16/40/5 samples; position-identifying PCM; a subset again embedded behind 7 foreign bytes with the source positioned at the stream's start) and each seekable reader front-end, breadth-first exploration of ALL histories over the op alphabet {read(n), fill_buf, fill+consume(k), seek(Start/Current/End or sample)} to a fixpoint with exact-state de-duplication (key = source position, current sample, decoded frame, buffered remainder, consumed count, reference cursor); every transition is checked against a cursor over the reference PCM; distinct outcomes = (front, op kind, label); plus the same exploration with ONE transient read fault injected at every 5th byte offset from byte 42 to the end of the file (mono/stereo 16-bit × 3 seek-table shapes × 4 front-ends): the operation that meets the fault must report it, and after the next successful seek every delivery is exact again";
 pub const ASSUMPTIONS: &[&str] = &["argument values outside the op alphabet are not explored (the states they reach mostly are)", "after a FAILED seek the position is unspecified, but data delivered afterwards must still be a piece of the stream and continue contiguously from wherever it starts (the cursor is re-synchronised on the first delivered chunk when it occurs exactly once in the reference)", "a byte-reader End-relative seek on a stream with undeclared total may fail (the end is unknowable without a full decode) but if it succeeds it must be exact"];
 pub fn bounds(quick: bool) -> Value {
     json!({"files": format!("channels {{1,2,3,8}} × depth {{8,12,16,24,32}} × 6 seek-table shapes × declared/unknown + (3ch,20bit), (5ch,4bit), (2ch,31bit), (7ch,1bit) × 3 shapes; {} full frames + 5-sample final", if quick { 2 } else { 6 }), "fixpoint": true})
@@ -168,7 +168,59 @@ fn explore_one(f: &TestFile, front: Front, acc: &mut Acc, spec: &Value) {
     }
 }
 
+fn explore_fault(f: &TestFile, front: Front, acc: &mut Acc, spec: &Value) {
+    let refbytes = pcm_bytes(&f.pcm, f.sig.bps, front == Front::ByteBE);
+    let ops = oplist(front, f);
+    let prefix = spec["prefix"].as_u64().unwrap_or(0) as usize;
+    let data = embedded(f, prefix);
+    let mut cur = Cursor::new(&data[..]);
+    cur.set_position(prefix as u64);
+    let src = crate::readers::FaultCursor { cur, at: spec["fault"].as_u64().unwrap_or(u64::MAX), fired: false };
+    let rd = match open(front, src, true) {
+        Ok(r) => r,
+        Err(_) => {
+            // the fault fell into the metadata the constructor reads: refusing to open is the right answer
+            acc.outcome(format!("{front:?}:open:refused-under-injected-fault"));
+            return;
+        }
+    };
+    let sys = ReaderSys { rd, m: model_for(front, f, &refbytes), oplist: &ops };
+    let mut viols: Vec<(Vec<String>, String, String)> = Vec::new();
+    let mut labels: Vec<(String, String)> = Vec::new();
+    let st = bfs::explore(
+        sys,
+        60_000,
+        |op, label| {
+            let kind = op.split(':').next().unwrap_or(op).to_string();
+            labels.push((kind, label.to_string()));
+        },
+        |h, c, d| viols.push((h, c, d)),
+    );
+    for (k, l) in labels {
+        acc.outcome(format!("{front:?}:{k}:{l}"));
+    }
+    acc.states += st.states;
+    acc.transitions += st.transitions;
+    acc.executions += 1;
+    acc.dim("max_depth", st.max_depth as u64);
+    if st.capped {
+        acc.caps.push(format!("state cap hit on {} {front:?}", f.desc));
+    }
+    if acc.samples.len() < 3 {
+        acc.sample(json!({"file": f.desc, "front": format!("{front:?}"), "ops": ops, "states": st.states, "transitions": st.transitions, "max_depth": st.max_depth}));
+    }
+    for (h, clause, detail) in viols {
+        let opk = h.last().map(|o| o.split(':').next().unwrap_or("").to_string()).unwrap_or_default();
+        acc.violation(
+            format!("C06|{front:?}|{opk}|{clause}"),
+            format!("{front:?} on {}{}: after history {:?}: {clause}: {detail}", f.desc, if prefix > 0 { format!(" embedded at offset {prefix}") } else { String::new() }, h),
+            json!({"kind":"reader-history","file":spec,"front":format!("{front:?}"),"ops":h}),
+        );
+    }
+}
+
 pub fn run(ctx: &Ctx, acc: &mut Acc) {
+    fault_stage(ctx, acc);
     for (ch, bps, var, decl, nfull) in files(ctx.quick) {
         for front in FRONTS {
             if !ctx.mine() {
@@ -197,6 +249,27 @@ pub fn run(ctx: &Ctx, acc: &mut Acc) {
     }
 }
 
+/// One transient read fault (deviation bound 1) at every 5th byte offset of the audio part: the operation that meets it must
+/// report it; after the next successful seek every delivery must be exact again.
+fn fault_stage(ctx: &Ctx, acc: &mut Acc) {
+    for (ch, bps) in [(1u8, 16u32), (2, 16)] {
+        for var in ["every-frame", "none", "every-2nd"] {
+            let f = seek_file(ch, bps, var, true, 2, 5);
+            let mut at = 42u64;
+            while at < f.bytes.len() as u64 {
+                for front in FRONTS {
+                    if !ctx.mine() {
+                        continue;
+                    }
+                    let spec = json!({"ch":ch,"bps":bps,"variant":var,"declared":true,"nfull":2,"tail":5,"fault":at});
+                    explore_fault(&f, front, acc, &spec);
+                }
+                at += 5;
+            }
+        }
+    }
+}
+
 pub fn front_from(s: &str) -> Front {
     match s {
         "ByteLE" => Front::ByteLE,
@@ -217,13 +290,24 @@ pub fn replay(v: &Value) -> Option<(bool, String)> {
     let ops: Vec<String> = v["ops"].as_array()?.iter().map(|o| o.as_str().unwrap_or("").to_string()).collect();
     let prefix = s["prefix"].as_u64().unwrap_or(0) as usize;
     let data = embedded(&f, prefix);
+    let empty: Vec<String> = vec![];
+    if let Some(at) = s["fault"].as_u64() {
+        let mut cur = Cursor::new(&data[..]);
+        cur.set_position(prefix as u64);
+        let rd = match open(front, crate::readers::FaultCursor { cur, at, fired: false }, true) {
+            Ok(r) => r,
+            Err(e) => return Some((false, format!("refused to open under the injected fault: {e}"))),
+        };
+        let sys = ReaderSys { rd, m: model_for(front, &f, &refbytes), oplist: &empty };
+        let (viol, labels) = bfs::replay(sys, &ops);
+        return Some((viol.is_some(), labels.join("\n")));
+    }
     let mut src = Cursor::new(&data[..]);
     src.set_position(prefix as u64);
     let rd = match open(front, src, true) {
         Ok(r) => r,
         Err(e) => return Some((true, e)),
     };
-    let empty: Vec<String> = vec![];
     let sys = ReaderSys { rd, m: model_for(front, &f, &refbytes), oplist: &empty };
     let (viol, labels) = bfs::replay(sys, &ops);
     Some((viol.is_some(), labels.join("\n")))
